@@ -530,8 +530,15 @@ def replay(path: str) -> int:
         return 0 if (ok and t_rc == 0) else 1
     c = d.get("case") or d
     r = run_script(bool(c.get("fast")), c.get("ntasks", 5), c.get("script") or c["ops"], quiesce=not c.get("script"))
+    # the same op list through the extracted model LockEntry.run_case, step by step next to the implementation
+    exe = core.build_driver("lockentry", "LockEntry")
+    m = core.run_driver(exe, [[1 if r.fast else 0] + r.ops])[0]
+    differ = False
     for i in range(0, len(r.ops), 2):
-        print(OPN[r.ops[i]], r.ops[i + 1], r.outs[i * 2:i * 2 + 4])
-    for m in r.mon:
-        print("MONITOR:", m)
-    return 1 if r.mon else 0
+        impl, mod = r.outs[i * 2:i * 2 + 4], m[i * 2:i * 2 + 4]
+        differ = differ or impl != mod
+        print(OPN[r.ops[i]], r.ops[i + 1], "impl", impl, "model", mod, "" if impl == mod else "   <-- differ")
+    for msg in r.mon:
+        print("MONITOR:", msg)
+    print("model agrees with the implementation on this case" if not differ else "MODEL AND IMPLEMENTATION DIFFER")
+    return 1 if (r.mon or differ) else 0
